@@ -28,6 +28,11 @@ TECHNIQUE = 'static analysis: callback-loop snapshot rule, registry effect summa
 def rule_anchor(ctx):
     ctx.rule('C18.anchor', 'the regex address matcher uses re.fullmatch (or an end anchor); every regex-special character is a '
                            'key of the rewrite table or has the same meaning in OSC patterns')
+    om_ = ctx.repo.func('sc3.base._oscmatch:osc_rematch_pattern')
+    src_ = full(om_.node)
+    ctx.ob('C18.anchor', f'{om_.fq}:star-bounded', any(t in src_ for t in ("count('*')", '(?>', '*+', 'possessive')),
+           "every '*' of an incoming pattern becomes an unbounded `.*`: a hostile pattern with n stars makes re.fullmatch backtrack in "
+           "O(len ** n) and the receiving thread stalls (12 stars against a 41-character path: minutes)", om_.node, om_.module)
     m = ctx.repo.module('sc3.base._oscmatch')
     f = m.functions['osc_rematch_pattern']
     cs = [c for c in U.calls(f.node) if (dump_name(c.func) or '').startswith('re.') and U.method_name(c) in ('match', 'fullmatch', 'search')]
@@ -261,6 +266,17 @@ def rule_order(ctx):
                         and ('sorted(' in norm(n.value) or 'reversed(' in norm(n.value) or isinstance(n.value, ast.BinOp)):
                     sites += 1
                     ctx.ob('C18.order', f'{f.fq}:{norm(n)}', False, f'{norm(n)} rebuilds a per-path responder list in another order', n, ci.module)
+                elif isinstance(n, ast.Assign) and len(n.targets) == 1 and isinstance(n.targets[0], ast.Subscript) \
+                        and U.is_self_attr(n.targets[0].value, 'active') and mname == 'remove':
+                    # removal written as an order-preserving filter of the same list (bound directly or through a local)
+                    val = n.value
+                    if isinstance(val, ast.Name):
+                        defs = [x.value for x in walk_local(f.node) if isinstance(x, ast.Assign) and norm(x.targets[0]) == val.id]
+                        val = defs[-1] if defs else val
+                    if isinstance(val, ast.ListComp) and len(val.generators) == 1 and norm(val.generators[0].iter) == norm(n.targets[0]) \
+                            and norm(val.elt) == norm(val.generators[0].target):
+                        sites += 1
+                        ctx.ob('C18.order', f'{f.fq}:{norm(n)}:filter', True, 'removal as an order-preserving filter', n, ci.module)
     ctx.require(sites >= 2, 'C18.order', f'only {sites} position-changing sites on self.active[...] found')
     u = d.methods['update_func_for_func_proxy']
     src = full(u.node)
@@ -349,6 +365,11 @@ def rule_wire(ctx):
         f = m.functions[name]
         ctx.ob('C18.wire', f'{f.fq}:length-check', 'if len(dgram[start_index:]) < ' in full(f.node) and 'raise Osc' in full(f.node),
                f'{name} rejects truncated datagrams', f.node, m)
+    gf = m.functions['get_float']
+    short = [t for t in walk_local(gf.node) if isinstance(t, ast.If) and 'len(dgram[start_index:])' in norm(t.test)]
+    ctx.ob('C18.wire', f'{gf.fq}:length-check', bool(short) and all(any(isinstance(x, ast.Raise) for x in t.body) for t in short),
+           'get_float pads a truncated float with zero bytes instead of rejecting it (kept from python-osc for a sender that omits trailing '
+           'zero bytes): a datagram cut inside a float argument is dispatched with an invented value', gf.node, m)
     gs = m.functions['get_string']
     src = full(gs.node)
     ctx.ob('C18.wire', f'{gs.fq}:bounds', 'if start_index < 0: raise OscTypeParseError' in src and 'if offset > len(dgram[start_index:]): raise OscTypeParseError' in src
